@@ -699,20 +699,30 @@ func persistBasicSegment(
 		ioCh <- ioResult{kind: "buf", want: len(seg.buf), got: bufWritten, err: err}
 	}()
 
+	// Wait for both writes, even when the first result is an error:
+	// returning early would leave the other write in flight, to land in
+	// the file at some later time, possibly on top of what a retry of
+	// this persistence round has written there meanwhile.
+	var firstErr error
 	resMap := map[string]ioResult{}
 	for len(resMap) < 2 {
 		res := <-ioCh
-		if res.err != nil {
-			return rv, res.err
-		}
-		if res.want != res.got {
-			return rv, fmt.Errorf("store: persistSegment error writing,"+
-				" res: %+v, err: %v", res, res.err)
+		if firstErr == nil {
+			if res.err != nil {
+				firstErr = res.err
+			} else if res.want != res.got {
+				firstErr = fmt.Errorf("store: persistSegment error writing,"+
+					" res: %+v, err: %v", res, res.err)
+			}
 		}
 		resMap[res.kind] = res
 	}
 
 	close(ioCh)
+
+	if firstErr != nil {
+		return rv, firstErr
+	}
 
 	return SegmentLoc{
 		Kind:       seg.Kind(),
